@@ -550,6 +550,10 @@ def m_callable(I, args, kw):
 
 @model(builtins.sorted)
 def m_sorted(I, args, kw):
+    if isinstance(args[0], AnyVal):
+        # unknown collection (havoc mode): the sorted copy is unknown too
+        I.any_op(f'sorted({args[0].label})', result=False)
+        return AnyVal(f'sorted({args[0].label})')
     items = list(I.iterate(args[0]))
     if kw:
         raise Unsupported('sorted with key/reverse')
